@@ -72,6 +72,8 @@ KL = {
 }
 LK = {v: k for k, v in KL.items()}
 NONRETRY = ("P", "A", "F")
+# default_classifier(exc) == stub label, for entry points that have no classifier to configure
+STATUS_FOR = {"T": 408, "R": 429, "S": 500, "C": 409, "P": 400, "A": 401, "F": 403}
 
 FAULT_TYPES = {
     "RuntimeError": RuntimeError,
@@ -516,6 +518,9 @@ class World:
             k, _, ra = rest.partition("+")
             exc = OpError(f"op{n}:{k}")
             exc.spec = (k, self.cfg["ra_ticks"] if ra else None)
+            code = STATUS_FOR.get(k)
+            if code is not None:
+                exc.status = code
         elif label == "abort":
             exc = AbortRetryError()
         elif label == "kbd":
